@@ -150,6 +150,8 @@ def main():
         results.append(r)
         if with_suite:
             print(f"   suite: {r.get('suite')} new failures: {r.get('suite_new_failures')}")
+        if len(r.get("detected_by_seed") or {}) > 1:
+            print(f"   detected by VERIF_SEED: {r['detected_by_seed']}")
         print(f"{n}: patch={r.get('patch')} demo(with,without)=({r.get('demo_with_change')},{r.get('demo_unchanged')}) check_exit={r.get('check_exit')} {r.get('check_seconds')}s {r.get('first_failure', '')[:120]}")
     if args and "--merge" in argv and os.path.exists(os.path.join(SEEDED, "RESULTS.json")):
         # update the named entries of the last full run and rewrite the table
